@@ -103,7 +103,7 @@ def make_suite(seed, tier):
     return progs
 
 
-def oracle(trace):
+def oracle(trace, findint=None):
     """independent statement: S = survivors of the last pause (Python reference / finalizer pipeline on its own shadow
     heap) + never-collected objects + allocations since; after a full-heap GC `enum` must list exactly S, each id once
     (after a nursery GC: at least S); `ismo a` answers the id of the object of S whose current reference is a, and
@@ -111,7 +111,7 @@ def oracle(trace):
     m = RefModel(trace.program.plan in GENERATIONAL)
     out, gcs = [], 0
     ref, space, moves, collects = {}, {}, True, True
-    exact, in_snap, fixed = True, set(), set()
+    exact, in_snap, fixed, refoff = True, set(), set(), 8
     for idx, (op, res) in enumerate(trace.pairs):
         t, r = op.split(), res.split()
         if not r or r[0].startswith("crash:") or r[0] in ("fatal", "timeout"):
@@ -132,6 +132,7 @@ def oracle(trace):
 
         if k == "constraints":
             moves, collects = "moves=1" in r, "collects=1" in r
+            refoff = int(re.search(r"refoff=(\d+)", res).group(1))
         elif k == "alloc":
             if r[0].startswith("a="):
                 kv = dict(x.split("=", 1) for x in r if "=" in x)
@@ -179,6 +180,12 @@ def oracle(trace):
                 out.append((idx, "gc:enum-missing", f"id={min(S - set(ids))}"))
             elif exact and set(ids) - S:
                 out.append((idx, "gc:enum-extra", f"id={min(set(ids) - S)}"))
+        elif k == "findint" and findint is not None:
+            valid = [(ref[i], i, m.sh.objs[i]["size"], space.get(i, ""), ref[i] - refoff) for i in ref if alive(i) and known(i)]
+            floaters = any(alive(i) and not known(i) for i in ref)
+            e = findint(t, res, valid, exact and not floaters)
+            if e:
+                out.append((idx,) + e)
         elif k == "ismo" and t[1].startswith("0x") and r[0] != "unsupported":
             a = int(t[1], 16)
             cands = sorted(i for i, v in ref.items() if v == a and alive(i) and known(i))
